@@ -15,9 +15,9 @@ Proof.
   assert (expo a = expo b) by lia. split; [assumption|]. lia.
 Qed.
 
-Lemma fpadd_comm_lemma a b : word a -> word b -> sval a + sval b <> 0 -> fpadd a b = fpadd b a.
+Lemma fpadd_w_comm_lemma ew a b : word a -> word b -> sval a + sval b <> 0 -> fpadd_w ew a b = fpadd_w ew b a.
 Proof.
-  intros Ha Hb Hnz. unfold fpadd. rewrite (add_swap_val a b), (add_swap_val b a) by assumption.
+  intros Ha Hb Hnz. unfold fpadd_w. rewrite (add_swap_val a b), (add_swap_val b a) by assumption.
   destruct (Z.ltb_spec (mag a) (mag b)); destruct (Z.ltb_spec (mag b) (mag a)); try reflexivity; try lia.
   assert (Hm : mag a = mag b) by lia. destruct (mag_inj a b Hm) as [He Hf].
   assert (negative a = negative b).
@@ -25,3 +25,6 @@ Proof.
   assert (a = b) by (rewrite (pack_fields a Ha), (pack_fields b Hb); congruence).
   subst b. reflexivity.
 Qed.
+
+Lemma fpadd_comm_lemma a b : word a -> word b -> sval a + sval b <> 0 -> fpadd a b = fpadd b a.
+Proof. exact (fpadd_w_comm_lemma 8 a b). Qed.
